@@ -167,6 +167,16 @@ class SymDict:
         self.items = []
 
 
+class OpaqueDict(SymDict):
+    """a dict-valued piece of object state the contract knows nothing about (lazily initialised attribute): it may
+    already contain arbitrary entries from earlier calls on the same object.  Membership of a key that was not stored on
+    this path is an unknown Bool, its value an unknown Real."""
+    def __init__(self, label):
+        SymDict.__init__(self)
+        self.label = label
+        self.unknown = []      # (key, has: Bool, value)
+
+
 class SymSeq:
     """symbolic sequence: length (z3 Int or int) + element function idx(z3 Int) -> value"""
     def __init__(self, length, elem, label="seq"):
@@ -1045,6 +1055,9 @@ class Engine:
             return b_or(*[self.compare(ast.Eq(), item, x) for x in cont.items])
         if isinstance(cont, dict):
             return b_or(*[self.compare(ast.Eq(), item, x) for x in cont.keys()])
+        if isinstance(cont, OpaqueDict):
+            stored = b_or(*[self.compare(ast.Eq(), item, k) for k, _ in cont.items])
+            return b_or(stored, self.opaque_entry(cont, item)[1])
         if isinstance(cont, SymDict):
             return b_or(*[self.compare(ast.Eq(), item, k) for k, _ in cont.items])
         for hook in self.contains_hooks:
@@ -1054,6 +1067,17 @@ class Engine:
         raise OutsideSubset("`in` on %r" % (cont,))
 
     contains_hooks = []
+
+    def opaque_entry(self, od, key):
+        for ent in od.unknown:
+            if self.compare(ast.Eq(), ent[0], key) is True or ent[0] is key:
+                return ent
+        n = next(self.fresh_counter)
+        ent = (key, z3.Bool("{}_has!{}".format(od.label, n)), z3.Real("{}_val!{}".format(od.label, n)))
+        od.unknown.append(ent)
+        self.used_assumptions.add("lazy object state: attributes the contract does not know are arbitrary (they may hold entries from earlier "
+                                  "calls on the same object)")
+        return ent
 
     def ev_IfExp(self, node, env):
         t = self.branch(self.ev(node.test, env), "ifexp[{}]".format(src_of(node.test, self.cur_source(env), 40)))
@@ -1093,6 +1117,9 @@ class Engine:
                     if any(isinstance(d, ast.Name) and d.id == "staticmethod" for d in fnode.decorator_list):
                         return fr
                     return BoundMethod(base, fr)
+            if base.fields.get("__lazy_state__"):
+                base.fields[attr] = OpaqueDict("{}.{}".format(base.cls, attr))
+                return base.fields[attr]
             raise OutsideSubset("attribute {}.{} not modelled".format(base.cls, attr))
         if isinstance(base, Ref):
             if attr in base.attrs:
@@ -1110,6 +1137,8 @@ class Engine:
             if attr in base.fn:
                 return base.fn[attr]
             raise OutsideSubset("external {}.{} has no model".format(base.name, attr))
+        if isinstance(base, SymSeq) and not isinstance(base, SList) and attr == "sort":
+            return Ext("seq.sort", lambda eng, _b=base, **kw: eng.seq_sort(_b, kw))
         if isinstance(base, SList):
             if attr == "append":
                 return Ext("slist.append", lambda eng, v, _b=base: _b.append(v))
@@ -1159,6 +1188,26 @@ class Engine:
         self.assume(z3.ForAll([q], z3.Implies(z3.And(0 <= q, q < to_z3(lst.length)), z3.And(0 <= perm(q), perm(q) < to_z3(lst.length)))))
         return None
 
+    def seq_sort(self, seq, kw):
+        """X-SORT: list.sort(key=k, reverse=r) permutes the list in place so that the keys are monotone"""
+        self.used_assumptions.add("X-SORT: list.sort(key=..., reverse=...) permutes the list in place; keys monotone afterwards")
+        n = next(self.fresh_counter)
+        perm = z3.Function("PERM!%d" % n, z3.IntSort(), z3.IntSort())
+        old = seq.elem
+        seq.elem = lambda i, old=old, perm=perm: old(perm(to_z3(i)))
+        seq.sort_perm = perm
+        N = to_z3(seq.length)
+        q, r = z3.Int("q!srt%d" % n), z3.Int("r!srt%d" % n)
+        self.assume(z3.ForAll([q], z3.Implies(z3.And(0 <= q, q < N), z3.And(0 <= perm(q), perm(q) < N))))
+        self.assume(z3.ForAll([q, r], z3.Implies(z3.And(0 <= q, q < r, r < N), perm(q) != perm(r))))
+        key = kw.get("key")
+        if key is not None:
+            rev = kw.get("reverse", False)
+            kq, kq1 = self.call(key, [seq.elem(q)]), self.call(key, [seq.elem(q + 1)])
+            mono = num_cmp(">=" if rev else "<=", kq, kq1)
+            self.assume(z3.ForAll([q], z3.Implies(z3.And(0 <= q, q + 1 < N), to_z3(mono))))
+        return None
+
     def list_method(self, lst, attr, args, kw):
         if attr == "append":
             lst.items.append(args[0])
@@ -1170,6 +1219,12 @@ class Engine:
 
     def ev_Subscript(self, node, env):
         base = self.ev(node.value, env)
+        if isinstance(node.slice, ast.Tuple) and any(isinstance(e, ast.Slice) for e in node.slice.elts):
+            for hook in self.slice_hooks:
+                r = hook(self, base, node.slice, env)
+                if r is not NotImplemented:
+                    return r
+            raise OutsideSubset("slice subscript")
         if isinstance(node.slice, ast.Slice):
             lo = self.ev(node.slice.lower, env) if node.slice.lower else None
             hi = self.ev(node.slice.upper, env) if node.slice.upper else None
@@ -1220,6 +1275,14 @@ class Engine:
                 if same is True:
                     return v
             raise OutsideSubset("dict lookup of symbolic key")
+        if isinstance(base, OpaqueDict):
+            for k, v in reversed(base.items):
+                same = self.compare(ast.Eq(), k, idx)
+                if self.branch(same, "dict-key=="):
+                    return v
+            ent = self.opaque_entry(base, idx)
+            self.oblige("dict-key-present", ent[1])
+            return ent[2]
         if isinstance(base, SymDict):
             # the most recent binding wins; fork on symbolic key equality
             for k, v in reversed(base.items):
@@ -1234,6 +1297,7 @@ class Engine:
         raise OutsideSubset("subscript of %r" % (type(base).__name__,))
 
     index_hooks = []
+    slice_hooks = []
 
     def iter_concrete(self, v):
         if isinstance(v, (tuple, list)):
@@ -1264,6 +1328,16 @@ class Engine:
                 emit(e2)
 
     def ev_ListComp(self, node, env):
+        if len(node.generators) == 1 and not node.generators[0].ifs:
+            it = self.ev(node.generators[0].iter, env)
+            if isinstance(it, SymSeq) and getattr(it, "items", None) is None:
+                g = node.generators[0]
+
+                def elem(i, it=it, g=g):
+                    e2 = Env(env)
+                    self.assign(g.target, it.elem(i), e2)
+                    return self.ev(node.elt, e2)
+                return SymSeq(it.length, elem, "comprehension")
         out = []
         self._comp(node.generators, env, lambda e2: out.append(self.ev(node.elt, e2)))
         return VList(out)
@@ -1580,7 +1654,37 @@ class Engine:
         if isinstance(cur, VList) and op == "+":
             cur.items.extend(self.iter_concrete(rhs))
             return
+        if isinstance(cur, SymSeq) and isinstance(rhs, SymSeq) and op == "+":
+            self.assign(st.target, self.seq_concat(cur, rhs), env)
+            return
         self.assign(st.target, self.arith(op, cur, rhs, st), env)
+
+    def seq_concat(self, a, b):
+        na = to_z3(a.length)
+
+        def elem(i, a=a, b=b, na=na):
+            i = to_z3(i)
+            return self.ite_value(i < na, a.elem(i), b.elem(i - na))
+        return SymSeq(self.arith("+", a.length, b.length), elem, "concat")
+
+    def ite_value(self, cond, x, y):
+        """if-then-else on values (numbers, references, fixed tuples)"""
+        if isinstance(x, tuple) and isinstance(y, tuple) and len(x) == len(y):
+            return tuple(self.ite_value(cond, p, q) for p, q in zip(x, y))
+        if isinstance(x, Ref) and isinstance(y, Ref):
+            return Ref(x.sort, z3.If(cond, x.term, y.term), call=x.call, attrs=self.ite_attrs(cond, x, y))
+        if is_num(x) and is_num(y):
+            zx, zy = to_z3(x), to_z3(y)
+            if not (z3.is_int(zx) and z3.is_int(zy)):
+                zx, zy = to_real(zx), to_real(zy)
+            return z3.If(cond, zx, zy)
+        raise OutsideSubset("if-then-else on %r / %r" % (type(x).__name__, type(y).__name__))
+
+    def ite_attrs(self, cond, x, y):
+        hook = self.ref_rebuild_hooks.get(x.sort)
+        return hook(self, z3.If(cond, x.term, y.term)).attrs if hook else {}
+
+    ref_rebuild_hooks = {}
 
     def ex_If(self, st, env):
         label = "if[{}]".format(src_of(st.test, self.cur_source(env), 48))
